@@ -22,3 +22,42 @@ package interp
 //@   ensures named-piece-switches-source: name != "" ==> interp.name == name
 //@   ensures first-unnamed-piece-gets-default-name: name == "" && old(interp.name) == "" ==> interp.name == DefaultSourceName
 //@   canary interp.name == name
+
+// CompileAST: main is added to the functions run after the package initialisation only by the piece of
+// source that defines it (its node lies in the tree compiled now).  A later piece — another Eval of
+// the interactive style — must not run main again.
+//@ trusted func (n *node) hasAnc(nod) (r)
+//@   pure
+//@ lit Interpreter.CompileAST if:mainID () ()
+//@   props C11
+//@   opt safety = off
+//@   opt opaque-calls = *
+//@   opt opaque-havoc = none
+//@   requires [assume] gs != nil && gs.sym != nil
+//@   ensures main-scheduled-only-by-the-piece-that-defines-it: len(initNodes) != old(len(initNodes)) ==> initNodes[len(initNodes)-1] != nil && (initNodes[len(initNodes)-1] == root || initNodes[len(initNodes)-1].hasAnc(root))
+//@   ensures only-appends: len(initNodes) >= old(len(initNodes)) && forall(k, 0, old(len(initNodes)), initNodes[k] == old(initNodes[k]))
+
+// `:=` (cfg.go, post-order case assignStmt/defineStmt): a short variable declaration that is not a
+// top-level statement of the piece declares a NEW variable in its block; it must not take over the symbol
+// of an enclosing scope (GTA only pre-declares the top-level ones, which are the ones to be re-used).
+// topLevelStmt(n) stands for "n is one of the statements global type analysis pre-declared".
+//@ lit Interpreter.cfg if:defineStmt#2 () ()
+//@   props C11
+//@   opt safety = off
+//@   opt opaque-calls = *
+//@   opt opaque-havoc = none
+//@   requires [assume] n != nil && sc != nil && sc.sym != nil && dest != nil
+//@   ensures nested-define-declares-a-new-variable: err == nil && n.kind == defineStmt && dest.ident != "_" && !old(has(sc.sym, dest.ident)) && !topLevelStmt(n) ==> has(sc.sym, dest.ident) && fresh(sc.sym[dest.ident])
+
+// `v, ok := m[k]` / `x.(T)` / `<-ch` (defineXStmt): compDefineX takes the type of the new variables from
+// the already typed right-hand side (types = append(types, src.typ, bool); scope.add(nil) is log.Panic).
+// In cfg it is called in post-order, after the operand was typed; global type analysis calls it for the
+// top-level statements of a piece before anything is typed.
+//@ trusted func compDefineX(sc, n) (err)
+//@   requires [C11] right-hand-side-typed: n.child[len(n.child)-1].kind == callExpr || (n.child[len(n.child)-1].kind == typeAssertExpr && n.child[len(n.child)-1].child[1].typ != nil) || (n.child[len(n.child)-1].kind != typeAssertExpr && n.child[len(n.child)-1].typ != nil)
+//@ lit Interpreter.gta case:defineXStmt () ()
+//@   props C11
+//@   opt safety = off
+//@   opt opaque-calls = *
+//@   opt opaque-havoc = none
+//@   requires [assume] n != nil && len(n.child) >= 2 && n.child[len(n.child)-1] != nil
